@@ -221,6 +221,7 @@ func connSession(variant, id int) (*logDuplex, error) {
 	defer ca.Close()
 	watchdog := time.AfterFunc(10*time.Second, func() { ca.Close() })
 	defer watchdog.Stop()
+	a2close := func() { ca.Close() } // unblocks the other peer
 	compressed := variant%2 == 1
 	tag := fmt.Sprintf("v%d", variant)
 	var wg sync.WaitGroup
@@ -228,6 +229,12 @@ func connSession(variant, id int) (*logDuplex, error) {
 	wg.Add(2)
 	go func() { // the echo server
 		defer wg.Done()
+		defer func() { // a panic inside the library ends this peer with an error instead of the whole driver
+			if p := recover(); p != nil {
+				serr = fmt.Errorf("panic: %v", p)
+				a2close()
+			}
+		}()
 		ext := wsflate.Extension{Parameters: wsflate.DefaultParameters}
 		u := ws.Upgrader{Negotiate: ext.Negotiate}
 		if _, serr = u.Upgrade(cb); serr != nil {
@@ -277,6 +284,12 @@ func connSession(variant, id int) (*logDuplex, error) {
 	}()
 	go func() { // the client
 		defer wg.Done()
+		defer func() { // a panic inside the library ends this peer with an error instead of the whole driver
+			if p := recover(); p != nil {
+				cerr = fmt.Errorf("panic: %v", p)
+				a2close()
+			}
+		}()
 		dl := ws.Dialer{Extensions: []httphead.Option{wsflate.DefaultParameters.Option()}}
 		uu, _ := url.Parse("ws://conn.test/" + tag)
 		br, hs, e := dl.Upgrade(ca, uu)
